@@ -460,6 +460,8 @@ def c18(ctx):
 def audit_reply(rep: str) -> dict | None:
     if rep.startswith("invalid"):
         return None
+    if rep.startswith("DRIVER-ERROR"):
+        raise RuntimeError("the model driver could not evaluate the audit: " + rep[:200])
     return {k: int(v) for k, v in (kv.split("=") for kv in rep.split())}
 
 
